@@ -35,6 +35,9 @@ def main():
     chk = vlib.Check(pid, a.tier, seed)
     try:
         mod.run(chk, a.tier, seed)
+        import pins
+        okp, dp = pins.verify(pid)
+        chk.obligation("the property theorems of %s state what was pinned (scripts/statements.json: statement hashes of */Props/%s*.v)" % (pid, pid), okp, dp)
     except Exception:
         chk.obligation("check machinery ran to completion", False, traceback.format_exc())
     sys.exit(chk.finish())
